@@ -809,7 +809,7 @@ def _run(ctx):
     tsec["uniform"] = time.time() - t0
     t0 = time.time()
     # ---- non-uniform grids from real dimension-wise runs
-    n_driver = 8 if quick else 90
+    n_driver = 24 if quick else 120
     for k in range(n_driver):
         if ctx.out_of_time(0.65):
             break
